@@ -371,7 +371,9 @@ type ExtCase struct {
 func checkExt(c ExtCase) fw.Outcome {
 	out := fw.Outcome{NonTrivial: true, Key: c.Parent}
 	p := sample(c.Parent, 9, "")
-	p.Kids = append(p.Kids, &S{"x:ext", "anything at all", nil}, &S{"y:note", "", []*S{{"z:inner", "1", nil}}})
+	p.Kids = append(p.Kids, &S{"x:ext", "anything at all", nil}, &S{"y:note", "", []*S{{"z:inner", "1", nil}}},
+		// (prefix and name are identifiers: letters, digits, '_', '-' and '.' after the first character)
+		&S{"my.ext:note", "x", nil}, &S{"_x.y-z:a.b_c-d", "", nil}, &S{"acme-v2.ext_1:Note9", "v", []*S{{"p.q:r.s", "", nil}}})
 	if c.Parent == "module" || c.Parent == "submodule" {
 		p.Kids = append([]*S{{"x:first", "a", nil}}, p.Kids...)
 	}
